@@ -70,7 +70,11 @@ def family():
     PS = Var('P', TFun(SA, BoolType))
     aS = Var('a', SA)
     uS, vS = Var('u', SA), Var('v', SA)
-    fo = [x, fS(x), gS(x, y), gS(x, x), gS(fS(x), y), gS(x, aS), fS(fS(x)), Eq(x, y), Eq(fS(x), x), PS(x), Lambda(uS, gS(uS, x)), Forall(uS, Eq(gS(uS, x), y))]
+    fo = [x, fS(x), gS(x, y), gS(x, x), gS(fS(x), y), gS(x, aS), fS(fS(x)), Eq(x, y), Eq(fS(x), x), PS(x), Lambda(uS, gS(uS, x)), Forall(uS, Eq(gS(uS, x), y)),
+          # a plain schematic variable under two binders (it may depend on neither bound variable)
+          Lambda(uS, Lambda(vS, x)), Lambda(uS, Lambda(vS, gS(x, vS))), Forall(uS, Forall(vS, Eq(x, vS))),
+          # patterns without schematic term variables: only the type is instantiated
+          Lambda(uS, uS), fS(aS), Forall(uS, Eq(uS, uS)), Lambda(uS, gS(uS, aS))]
     ho = [sf(x), sP(x), Lambda(uS, sf(uS)), Forall(uS, sP(uS)), Lambda(uS, gS(sf(uS), x)), sf(aS), sP(fS(x)), Lambda(uS, Lambda(vS, sh(uS, vS))), Lambda(uS, Lambda(vS, sh(vS, uS))),
           Lambda(uS, sh(uS, uS)), Eq(sf(x), y), Forall(uS, Eq(sf(uS), gS(uS, x))), gS(sf(x), sf(y)), Lambda(uS, sf(gS(uS, x))), sh(x, y), Forall(uS, Forall(vS, sP(gS(uS, vS))))]
     pats = [('fo', p) for p in fo] + [('ho', p) for p in ho]
